@@ -95,6 +95,10 @@ type RegT struct{ X int }
 // FoldRegT is the registered folder of RegT: emits the string "reg:<X>"-ish
 // object {"rx": X}.
 func FoldRegT(t *RegT, v structform.ExtVisitor) error {
+	if t == nil {
+		// registered folders are handed nil pointers as they are
+		return v.OnNil()
+	}
 	if err := v.OnObjectStart(1, structform.AnyType); err != nil {
 		return err
 	}
